@@ -90,7 +90,10 @@ class C17(core.Property):
                                    eval_metrics={'accuracy': metrics.Accuracy()})
     self.apfl_eval = apfl.eval_adaptive_personalized_federated_learning(
         self.eval_model, client_datasets.PaddedBatchHParams(batch_size=2))
-    self.hyp_eval = hyp_cluster.HypClusterEvaluator(self.eval_model)
+    # optional L2 regulariser lam/2*|w|^2, passed through the algorithm's own `regularizer=` argument
+    self.reg = {0.0: None, 0.5: (lambda params: 0.25 * jnp.sum(jnp.square(vec(params)))),
+                1.0: (lambda params: 0.5 * jnp.sum(jnp.square(vec(params))))}
+    self.hyp_eval = {lam: hyp_cluster.HypClusterEvaluator(self.eval_model, reg) for lam, reg in self.reg.items()}
 
     class RecDataset(client_datasets.ClientDataset):
       def __init__(self, raw, train_log, pad_log):
@@ -198,12 +201,18 @@ class C17(core.Property):
         nonempty = [c for c in pop if len(c['y'])]
         evals = [([dict(c) for c in rng.sample(nonempty, rng.randrange(1, len(nonempty) + 1))]
                   if nonempty and rng.random() < 0.4 else []) for _ in range(len(rounds) + 1)]
-        yield {**base, 'K': K, 'clusters': clusters, 'rounds': rounds, 'evals': evals}
+        # an L2 regulariser changes which cluster has minimal average loss when the clusters lie at different distances
+        # from the origin (the evaluator adds regularizer(cluster params) to every client's average loss)
+        lam = rng.choice([0.0, 0.0, 0.5, 1.0])
+        if lam and rng.random() < 0.5:
+          clusters[0] = [rng.choice([-3, 3, 4]), rng.choice([-4, 3, 4])]     # far from the origin, others near
+        yield {**base, 'K': K, 'clusters': clusters, 'rounds': rounds, 'evals': evals, 'lam': lam}
       elif fam == 'clip':
-        clip = rng.choice([0.0625, 0.25, 0.5, 1.0, 4.0, 0.0])
+        # 'inf' / 1e30 / 1e39 (= inf in float32): the "no clipping" entries of a sweep — nothing may change
+        clip = rng.choice([0.0625, 0.25, 0.5, 1.0, 4.0, 0.0, 0.0625, 0.25, 1.0, 'inf', 1e30, 1e39])
         # bound 0 ("no update may pass") is legal; clients without examples are left out there because a
         # zero delta clipped to 0 is 0/0 in tree_clip_by_global_norm (outside the property, cf. C07)
-        pop = self._population(rng, 4, 2, sizes=(0, 1, 2, 3, 5) if clip > 0 else (1, 2, 3, 5))
+        pop = self._population(rng, 4, 2, sizes=(0, 1, 2, 3, 5) if clip != 0 else (1, 2, 3, 5))
         rounds = [[dict(pop[j]) for j in rng.sample(range(4), rng.choice([1, 2, 3]))]
                   for _ in range(rng.choice([1, 2, 3]))]
         yield {**base, 'copt': rng.choice([['sgd', 0.25, 0.0], ['momentum', 0.125, 0.5]]), 'lr': rng.choice([1.0, 0.5]),
@@ -587,10 +596,16 @@ class C17(core.Property):
     jnp = self.jnp
     K = case['K']
     tags = ['family=hyp', f'K={K}', f'rounds={len(case["rounds"])}', f'sopt={case["sopt"][0]}']
-    key = ('hyp', tuple(case['copt']), tuple(case['sopt']), case['batching'])
+    lam = case.get('lam', 0.0)
+    tags.append(f'regulariser={bool(lam)}')
+    key = ('hyp', tuple(case['copt']), tuple(case['sopt']), case['batching'], lam)
     alg = self.cached(key, lambda: self.mods['hyp'].hyp_cluster(
         self.pel[False], self.mk_opt(case['copt']), self.mk_opt(case['sopt']),
-        self.cds.PaddedBatchHParams(batch_size=2), self.hparams(case['batching'])))
+        self.cds.PaddedBatchHParams(batch_size=2), self.hparams(case['batching']), regularizer=self.reg[lam]))
+
+    def reg_of(b):
+      return 0.5 * lam * float(np.sum(np.asarray(b, np.float64) ** 2))
+    reg_flipped = False
     state = alg.init([{'w': jnp.asarray(c, dtype=jnp.float32)} for c in case['clusters']])
     cinit, capply = np_opt(case['copt'])
     sinit, sapply = np_opt(case['sopt'])
@@ -618,7 +633,7 @@ class C17(core.Property):
                  for j, c in enumerate(ev)]
       test_c = [(c['id'], self.cds.ClientDataset({'x': np.asarray(c['x'], np.float32).reshape(len(c['y']), 2),
                                                   'y': (np.asarray(c['y']) > 0).astype(np.int32)})) for c in ev]
-      res = dict(self.hyp_eval.evaluate_clients(st.cluster_params, train_c, test_c,
+      res = dict(self.hyp_eval[lam].evaluate_clients(st.cluster_params, train_c, test_c,
                                                 self.cds.PaddedBatchHParams(batch_size=2)))
       where = f'evaluation before round {slot}' if slot < len(case['rounds']) else 'evaluation after the last round'
       if len(st.cluster_params) != K or len(st.opt_states) != K or raw_of(st) != before:
@@ -626,7 +641,7 @@ class C17(core.Property):
       cps = [np.asarray(p['w'], np.float64) for p in st.cluster_params]
       for c in ev:
         x, y = np.asarray(c['x'], np.float64), np.asarray(c['y'], np.float64)
-        losses = [float(np.mean(0.5 * (x @ b - y) ** 2)) for b in cps]
+        losses = [float(np.mean(0.5 * (x @ b - y) ** 2)) + reg_of(b) for b in cps]
         best = [k for k in range(K) if losses[k] <= min(losses) + 1e-4 * (1 + min(losses))]
         labels = (y > 0).astype(int)
         acc = float(res[c['id']]['accuracy'])
@@ -658,9 +673,13 @@ class C17(core.Property):
       for c in cohort:
         if len(c['y']):
           x, y = np.asarray(c['x'], np.float64), np.asarray(c['y'], np.float64)
-          losses = [float(np.mean(0.5 * (x @ b - y) ** 2)) for b in before]
+          data = [float(np.mean(0.5 * (x @ b - y) ** 2)) for b in before]
         else:
-          losses = [0.0] * K
+          data = [0.0] * K
+        # the average loss the maximisation step ranks clusters by includes the regulariser of each cluster's params
+        losses = [dl + reg_of(b) for dl, b in zip(data, before)]
+        if int(np.argmin(losses)) != int(np.argmin(data)):
+          reg_flipped = True
         a = assign.get(c['id'])
         if a is None or not 0 <= a < K:
           problems.append(f'round {ri}: client {c["id"]} has no valid cluster id ({a})')
@@ -690,7 +709,7 @@ class C17(core.Property):
           for j, c in mine:
             p, o = before[k].copy(), cinit(before[k])
             for b in tl[j]:
-              o, p = capply(self.batch_grad(p, b), o, p)
+              o, p = capply(self.batch_grad(p, b) + lam * p, o, p)
             num += len(c['y']) * (before[k] - p)
           ref_state[k], expect = sapply(num / tot, ref_state[k], before[k])
           scale = max(scale, float(np.max(np.abs(expect))))
@@ -705,9 +724,9 @@ class C17(core.Property):
                         for j, c in enumerate(cohort)], []])
     if not problems:
       evaluation(len(case['rounds']), state)
-    tags += [f'empty_cluster={saw_empty}', f'near_tie={near_tie}']
+    tags += [f'empty_cluster={saw_empty}', f'near_tie={near_tie}', f'regulariser_changes_assignment={reg_flipped}']
     if not problems and not near_tie:
-      ans = ctx.drv.ask1('c12.hyp', False, opt_code(case['copt']), opt_code(case['sopt']),
+      ans = ctx.drv.ask1('c12.hyp', [False, lam], opt_code(case['copt']), opt_code(case['sopt']),
                          [[float(v) for v in c] for c in case['clusters']], mcohorts)
       for ri, r in enumerate(ans):
         massign = r[1]
@@ -728,8 +747,10 @@ class C17(core.Property):
   # ================================================================== MimeLite clip
   def eval_clip(self, case, ctx):
     jnp = self.jnp
-    keyed, clip = case['keyed'], case['clip']
-    tags = ['family=clip', f'keyed={keyed}', f'clip={clip}', f'base={case["copt"][0]}']
+    keyed, clip = case['keyed'], float(case['clip'])        # 'inf' -> inf
+    # the model clips with a rational bound; an infinite (or float32-infinite) bound is a bound above every norm
+    mclip = clip if clip < 1e31 else 10 ** 60
+    tags = ['family=clip', f'keyed={keyed}', f'clip={case["clip"]}', f'base={case["copt"][0]}']
     key = ('clip', keyed, tuple(case['copt']), case['batching'], case['lr'], clip)
     alg = self.cached(key, lambda: self.mods['mime_lite'].mime_lite(
         self.pel[keyed], self.mk_opt(case['copt']), self.hparams(case['batching']),
@@ -752,6 +773,8 @@ class C17(core.Property):
         # a zero delta (e.g. a client whose gradient vanishes) clipped to the bound 0 is 0/0 in
         # tree_clip_by_global_norm: outside the property ("below the bound"), as for an empty client
         return Outcome(nontrivial=False, tags=tuple(tags + ['clip0_zero_delta=outside_domain']), detail={'impl': impl})
+      if not np.all(np.isfinite(after)):
+        problems.append(f'round {ri}: server params {after.tolist()} are not finite (clip norm {case["clip"]})')
       # reference: frozen-state local steps, clip, weighted mean (key-free loss only)
       num, tot = np.zeros(2), 0.0
       for j, c in enumerate(cohort):
@@ -761,6 +784,10 @@ class C17(core.Property):
                           f'is configured (raw delta norm {float(dg["delta_l2_norm"])})')
           continue
         n_raw, n_clip = float(dg['delta_l2_norm']), float(dg['clipped_delta_l2_norm'])
+        if not (np.isfinite(n_raw) and np.isfinite(n_clip)):
+          problems.append(f'round {ri}: client {c["id"]}: delta norm {n_raw} -> {n_clip} after clipping to {case["clip"]} '
+                          f'is not finite')
+          continue
         if n_clip > clip * (1 + 1e-5) + 1e-7:
           problems.append(f'round {ri}: client {c["id"]} is aggregated with a delta of norm {n_clip} > clip norm {clip}')
         if n_raw <= clip and abs(n_clip - n_raw) > 1e-5 * (1 + n_raw):
@@ -808,7 +835,7 @@ class C17(core.Property):
       mcohorts.append([cl, self.enc_tab(tab)])
     tags += [f'some_clipped={some_clipped}', f'some_unclipped={some_unclipped}']
     if not problems:
-      ans = ctx.drv.ask1('c12.mimelite', keyed, clip, opt_code(case['copt']), case['lr'], [float(v) for v in case['w0']],
+      ans = ctx.drv.ask1('c12.mimelite', keyed, mclip, opt_code(case['copt']), case['lr'], [float(v) for v in case['w0']],
                          mcohorts)
       if ans == 'err':
         corr.append('model: raises, implementation ran')
@@ -820,7 +847,7 @@ class C17(core.Property):
             break
         # the deltas the model aggregates in round 0 have the norms the implementation reports
         w0 = [float(v) for v in case['w0']]
-        dl = ctx.drv.ask1('c12.mimelite_deltas', keyed, clip, opt_code(case['copt']), w0, [0.0] * len(w0), mcohorts[0])
+        dl = ctx.drv.ask1('c12.mimelite_deltas', keyed, mclip, opt_code(case['copt']), w0, [0.0] * len(w0), mcohorts[0])
         for cid, vec in dl:
           nm = float(np.linalg.norm([float(v) for v in vec]))
           if abs(nm - impl[0]['norms'][str(cid)]) > 1e-4 * (1 + nm):
